@@ -59,19 +59,46 @@ class Project:
                 js.close()
         return r, r_tokens
 
-    def run_many(self, cmds, timeout=60):
-        """cmds: list of dict(argv=, delay=, extra=).  Started concurrently (after their delay)."""
+    def run_many(self, cmds, timeout=60, barrier=False):
+        """cmds: list of dict(argv=, delay=, extra=).  Started concurrently (after their delay).
+        With `barrier` every command first blocks opening a FIFO; the harness opens it for writing once all of
+        them wait there, which releases them in the same instant (each then execs its command)."""
         res = [None] * len(cmds)
+        fifo = None
+        if barrier:
+            fifo = os.path.join(os.path.dirname(self.top), os.path.basename(self.top) + '.barrier')
+            if not os.path.exists(fifo):
+                os.mkfifo(fifo)
 
         def go(i, c):
-            if c.get('delay'):
+            if c.get('delay') and not barrier:
                 time.sleep(c['delay'])
-            res[i] = run_cmd(c['argv'], c.get('cwd') or self.top, env=self.env(c.get('extra')), timeout=timeout)
+            argv = c['argv']
+            if barrier == 'spin':
+                # busy-waiting starters have no wake-up latency: the tightest simultaneity a user-space harness can get
+                argv = ['sh', '-c', 'while [ ! -e "$0.go" ]; do :; done; exec "$@"', fifo] + list(argv)
+            elif barrier:
+                argv = ['sh', '-c', 'read _ < "$0"; exec "$@"', fifo] + list(argv)
+            res[i] = run_cmd(argv, c.get('cwd') or self.top, env=self.env(c.get('extra')), timeout=timeout)
         ths = [threading.Thread(target=go, args=(i, c)) for i, c in enumerate(cmds)]
         for t in ths:
             t.start()
+        if barrier:
+            # wait until every starter sits in open(fifo) (blocked shells consume no CPU; 150 ms is ample), then release
+            time.sleep(0.15)
+            if barrier == 'spin':
+                open(fifo + '.go', 'w').close()
+            else:
+                fd = os.open(fifo, os.O_WRONLY)
+                os.close(fd)
         for t in ths:
             t.join()
+        if fifo:
+            for f in (fifo, fifo + '.go'):
+                try:
+                    os.unlink(f)
+                except OSError:
+                    pass
         return res
 
     def trace_text(self):
